@@ -44,7 +44,7 @@ fn run_line(line: &str) -> String {
 }
 
 /// Streams that start threads inside the crate run under a watchdog: a case that does not return within
-/// 120 s is reported as `hang` (its thread is abandoned) instead of stalling the whole shard.
+/// 25 s is reported as `hang` (its thread is abandoned) instead of stalling the whole shard.
 fn run_line_guarded(line: &str) -> String {
     let stream = line.split(' ').next().unwrap_or("");
     if !matches!(stream, "DLV" | "FAIL" | "HIST" | "ENC") { return run_line(line); }
@@ -52,7 +52,7 @@ fn run_line_guarded(line: &str) -> String {
     let l = line.to_string();
     let (tx, rx) = std::sync::mpsc::channel();
     std::thread::Builder::new().stack_size(64 << 20).spawn(move || { let _ = tx.send(run_line(&l)); }).unwrap();
-    match rx.recv_timeout(std::time::Duration::from_secs(120)) { Ok(s) => s, Err(_) => format!("{} hang", id) }
+    match rx.recv_timeout(std::time::Duration::from_secs(25)) { Ok(s) => s, Err(_) => format!("{} hang", id) }
 }
 
 fn main() {
